@@ -155,6 +155,7 @@ pub fn run(cfg: &RunCfg) -> Report {
 							api: Api::GuardUnlock,
 							lent: false,
 							panic: false,
+							unwind: false,
 						};
 						let use_it = |tc: &mut Tc<'_>, lk: &dyn Lk| {
 							tc.outcomes.clear();
